@@ -107,8 +107,14 @@ class G:
         fn = self.pick(["row_number this", "rank a", "rank_dense b", "lag 1 a", "lead 2 b", "first a", "last b", "sum a", "average b", "min c", "max a",
                         "count this", "count_distinct a", "stddev a"])
         fn2 = self.pick(["sum b", "row_number this", "lag 1 c"])
-        shape = r.randint(0, 7)
+        shape = r.randint(0, 8)
         pre = self.pick(["", "", "sort {a, id}\n", "sort {-b}\n", "filter a > 0\n", "select {id, a, b, c, g}\n"])
+        if shape == 8:
+            # RANGE frames with offset bounds: valid with exactly one sort key only (C07-N14)
+            rg = self.pick(["range:-1..1", "range:-2..0", "range:0..3", "range:-1..", "range:..2"])
+            srt = self.pick(["", "sort a | ", "sort {-b} | ", "sort {a, b} | ", "sort {g, -id} | "])
+            body = self.pick(["window %s (%sderive {w = %s})", "group {g} (window %s (%sderive {w = %s}))"]) % (rg, srt, self.pick(["sum a", "max b", "count this", "average c"]))
+            return "from t\n%s%s" % (pre if not srt else "", body), {"window", "range_frame"}
         if shape == 0:
             body = "derive {w = %s}" % fn
         elif shape == 1:
